@@ -258,6 +258,13 @@ def main():
         engine.phase(ck, 'E1 N=%d x 128 callback subsets x failing invocation k = 0..K' % N, shard, shards, subsets=128)
     Ns = [4, 5, 6] if quick else [5, 6, 7]
     main_phase(Ns[0])
+    # function calls need many tokens each: a reduced alphabet, deeper (several calls on one level, calls inside a section)
+    fsch = variant(0b1000000)
+    falpha = ['fn', '(', ')', ',', '7', 't1', 's', '{', '}', 'x', '=']
+    Nf = 11 if quick else 13
+    inner, frontier = trace.viable_prefixes(fsch, 0, falpha, 3)
+    shards = [([(fsch, fsch, [], 0, falpha)], 0, inner, dl)] + [([(fsch, fsch, [], 0, falpha)], Nf, ch, dl) for ch in engine.chunks(frontier, 2)]
+    engine.phase(ck, 'E1 N=%d over the function-call alphabet (several calls per level, calls inside sections)' % Nf, shard, shards, alphabet=len(falpha))
     # the same with the validation callbacks registered by schema path (cfg_set_validate_func) before the parse
     Nb = 4 if quick else 6
     shards = []
@@ -288,6 +295,8 @@ def main():
     confs.append((K('pv', 'pv', 'p', 'p', 'pv', 'K2g'), K('pv', 'pv', 'p', 'p', 'pv', 'K2g'), [], 0))
     confs.append((K('v', 'v', 'v', 'v', 'v', 'K3g'), K('', '', '', '', '', 'K3d'), ['set_vf A %s 1' % enc(x) for x in (b'f', b'b', b't', b'tl', b'g|y', b'g')], 0))
     confs.append((K('v', '', 'v', '', 'v', 'K4'), K('', '', '', '', '', 'K4d'), ['set_vf A %s 1' % enc(x) for x in (b'F', b'T', b'G|Y')], CFGF['NOCASE']))
+    # a validation callback that is cleared again (NULL) is gone
+    confs.append((K('p', 'p', 'p', 'p', '', 'K6'), K('pv', 'pv', 'pv', 'pv', 'v', 'K6d'), ['set_vf A %s 0' % enc(x) for x in (b'f', b'b', b't', b'tl', b'g|y')], 0))
     # deprecated / dropped options keep their callbacks: the value is converted and validated before it is dropped
     D5 = Schema('K5', [Opt('int', 'd', 'D', 5, 'pv'), Opt('int', 'dx', 'DX', 5, 'pv'), Opt('int', 'dl', 'LDX', [b'1'], 'pv'), Opt('int', 'z', '', 3, 'v')])
     confs.append((D5, D5, [], 0))
@@ -301,13 +310,6 @@ def main():
             shards.append(([conf], Nk, ch, dl))
     engine.phase(ck, 'E1 N=%d: float / bool / string / pointer parse callbacks, a single section addressed by path, registration under CFGF_NOCASE, deprecated / dropped options' % Nk,
                  shard, shards, configurations=len(confs))
-    # function calls need many tokens each: a reduced alphabet, deeper (several calls on one level, calls inside a section)
-    fsch = variant(0b1000000)
-    falpha = ['fn', '(', ')', ',', '7', 't1', 's', '{', '}', 'x', '=']
-    Nf = 11 if quick else 13
-    inner, frontier = trace.viable_prefixes(fsch, 0, falpha, 3)
-    shards = [([(fsch, fsch, [], 0, falpha)], 0, inner, dl)] + [([(fsch, fsch, [], 0, falpha)], Nf, ch, dl) for ch in engine.chunks(frontier, 2)]
-    engine.phase(ck, 'E1 N=%d over the function-call alphabet (several calls per level, calls inside sections)' % Nf, shard, shards, alphabet=len(falpha))
     for N in Ns[1:]:
         main_phase(N)       # the deeper bounds last: everything above has run when the deadline cuts them short
     ck.assumptions = ['validation calls: the log is compared after collapsing consecutive identical calls (same option, same count, same last value)',
